@@ -86,7 +86,7 @@ fn run_family<F: Family>(p: &Program, verbose: bool, passthrough: bool) -> RunRe
         verbose,
     });
     let env = Env::<F>::new(passthrough);
-    let mut slots: Vec<Option<Slot<F>>> = (0..MAXT * NS).map(|_| None).collect();
+    let mut slots: Vec<Option<Slot<F>>> = (0..MAXT * NS + NSHARED).map(|_| None).collect();
     let mut done = 0usize;
     let mut skipped = 0usize;
     let mut tally = |r: OpReport| {
@@ -97,18 +97,20 @@ fn run_family<F: Family>(p: &Program, verbose: bool, passthrough: bool) -> RunRe
         }
     };
     for op in &p.setup {
-        tally(exec_op(&mut slots, 0, &env, false, 0, op, true));
+        tally(exec_op(&mut slots, &[], 0, &env, false, 0, op, true));
     }
     let n = p.par.len();
     if n == 1 {
         for op in &p.par[0] {
-            tally(exec_op(&mut slots, 0, &env, false, 0, op, true));
+            tally(exec_op(&mut slots, &[], 0, &env, false, 0, op, true));
         }
     } else if n > 1 {
         probes::hit(P_RUN_MULTI);
         let counts: Vec<Mutex<(usize, usize)>> = (0..n).map(|_| Mutex::new((0, 0))).collect();
         {
-            let chunks: Vec<Mutex<&mut [Option<Slot<F>>]>> = slots.chunks_mut(NS).map(Mutex::new).collect();
+            let (thr, sh) = slots.split_at_mut(MAXT * NS);
+            let sh: &[Option<Slot<F>>] = sh;
+            let chunks: Vec<Mutex<&mut [Option<Slot<F>>]>> = thr.chunks_mut(NS).map(Mutex::new).collect();
             let env = &env;
             let counts = &counts;
             sim::run_parallel(n, |t| {
@@ -116,7 +118,7 @@ fn run_family<F: Family>(p: &Program, verbose: bool, passthrough: bool) -> RunRe
                 let mut g = chunks[t].lock().unwrap_or_else(|e| e.into_inner());
                 let mut c = (0usize, 0usize);
                 for op in &p.par[t] {
-                    let r = exec_op(&mut g, t * NS, env, true, t, op, false);
+                    let r = exec_op(&mut g, sh, t * NS, env, true, t, op, false);
                     if r.skipped {
                         c.1 += 1
                     } else {
@@ -145,7 +147,7 @@ fn run_family<F: Family>(p: &Program, verbose: bool, passthrough: bool) -> RunRe
         check_all(&slots, 0, &env, &q);
     }
     for op in &p.post {
-        let r = exec_op(&mut slots, 0, &env, false, 0, op, true);
+        let r = exec_op(&mut slots, &[], 0, &env, false, 0, op, true);
         if r.skipped {
             skipped += 1
         } else {
@@ -173,7 +175,7 @@ fn run_family<F: Family>(p: &Program, verbose: bool, passthrough: bool) -> RunRe
                 // put into a scratch slot vector and drop through the normal op
                 let mut scratch: Vec<Option<Slot<F>>> = vec![Some(s)];
                 let op = Op::new(OpCode::Drop, 1000, 0, 0);
-                exec_op(&mut scratch, 1000, &env, false, 0, &op, false);
+                exec_op(&mut scratch, &[], 1000, &env, false, 0, &op, false);
                 check_all(&slots, 0, &env, &op);
             }
         }
@@ -185,7 +187,7 @@ fn run_family<F: Family>(p: &Program, verbose: bool, passthrough: bool) -> RunRe
         }
         let i = occ[sim::choose(occ.len())];
         let op = Op::new(OpCode::Drop, i as u32, 0, 0);
-        exec_op(&mut slots, 0, &env, false, 0, &op, true);
+        exec_op(&mut slots, &[], 0, &env, false, 0, &op, true);
         done += 1;
     }
     // ---- end-of-run accounting
